@@ -48,7 +48,8 @@ theorem C10_return (cfg : Config σ τ ε) (a : Nat) (st : LState σ) (t : τ)
 unconsumed character): see `C06_action_views`; restated here for the action protocol. -/
 theorem C10_views (cfg cfg' : Config σ τ ε) (hm : MachineOK cfg) (input : List Nat) (st : LState σ)
     (hb : Boundary cfg.width input st)
-    (hsame : cfg'.dfa = cfg.dfa ∧ cfg'.ctxs = cfg.ctxs ∧ cfg'.entries = cfg.entries ∧ cfg'.width = cfg.width ∧ cfg'.input = cfg.input)
+    (hsame : cfg'.dfa = cfg.dfa ∧ cfg'.ctxs = cfg.ctxs ∧ cfg'.entries = cfg.entries ∧ cfg'.width = cfg.width ∧ cfg'.input = cfg.input ∧
+      cfg'.inl = cfg.inl)
     (hact : ∀ a v, ViewOK cfg input v → (cfg.actions a).run v = (cfg'.actions a).run v) :
     next cfg st = next cfg' st :=
   next_views cfg cfg' hm input st hb hsame hact
